@@ -382,6 +382,12 @@ class JsonRPCProtocol:
 
         try:
             body = json.dumps(data, default=self._serialize_message)
+        except Exception as error:
+            logger.exception("Error serializing data", exc_info=True)
+            self._server._report_server_error(error, JsonRpcInternalError)
+            return False
+
+        try:
             logger.info("Sending data: %s", body)
 
             if self._include_headers:
@@ -421,7 +427,10 @@ class JsonRPCProtocol:
                 id=msg_id, result=result, jsonrpc=JsonRPCProtocol.VERSION
             )
 
-        self._send_data(response)
+        if self._send_data(response) is False and error is None:
+            # The result could not be serialized, the request still needs an answer.
+            err = JsonRpcInternalError("Unable to serialize the result")
+            self._send_data(ResponseErrorMessage(id=msg_id, error=err.to_response_error()))
 
     def set_writer(
         self,
